@@ -834,6 +834,21 @@ fn c18_body(d: Dials) -> vsched::Body {
                     bad.push(format!("node {n} lists the session over {} but reported {} as the ready one", s.0, live[0]));
                 }
             }
+            // a link is reported ready only while it is the elected one: the node reports a link authenticated
+            // exactly when it wins the election (the links it beat are closed at that moment), so the latest
+            // "authenticated" before any "ready" names the same link
+            let mut last_auth: Option<String> = None;
+            for e in &ev {
+                if let Some(rest) = e.strip_prefix(&format!("{n}:authenticated ")) {
+                    last_auth = Some(rest.to_string());
+                }
+                if let Some(rest) = e.strip_prefix(&format!("{n}:ready ")) {
+                    let link = rest.split(' ').next().unwrap_or("").to_string();
+                    if last_auth.as_deref() != Some(link.as_str()) {
+                        bad.push(format!("node {n} reported {link} ready after the election had already been decided for {last_auth:?}: {ev:?}"));
+                    }
+                }
+            }
             // the same link is never reported ready twice
             let mut seen = std::collections::BTreeSet::new();
             for e in ev.iter().filter(|e| e.starts_with(&format!("{n}:ready "))) {
@@ -1230,8 +1245,34 @@ fn c20_body(read_limit: usize, ending: Ending, abandon: bool) -> vsched::Body {
             vsched::quiesce_time();
             vsched::explore_schedules(false);
             let l = plog.lock().unwrap().clone();
-            if l.iter().filter(|e| e.starts_with("P:ask")).count() != 5 {
+            if l.iter().filter(|e| e.starts_with("P:ask 20")).count() != 2 {
                 bad.push(format!("the real actor did not handle the abandoned and the following call: {l:?}"));
+            }
+        }
+        // one sender pipelines on the same reference: a request whose answer it does not wait for, then two
+        // casts, then another request; the real actor must handle the four in that order
+        {
+            vsched::explore_schedules(true);
+            let before = plog.lock().unwrap().len();
+            let (tx1, rx1) = ractor::concurrency::oneshot();
+            let (tx2, rx2) = ractor::concurrency::oneshot();
+            let ok = [
+                proxy_ref.cast(Wire::Ask(150, tx1.into())).is_ok(),
+                proxy_ref.cast(Wire::Note(31, "pipe".into())).is_ok(),
+                proxy_ref.cast(Wire::Note(32, "pipe".into())).is_ok(),
+                proxy_ref.cast(Wire::Ask(151, tx2.into())).is_ok(),
+            ];
+            let a1 = rx1.await.ok();
+            let a2 = rx2.await.ok();
+            vsched::quiesce_time();
+            vsched::explore_schedules(false);
+            let l: Vec<String> = plog.lock().unwrap()[before..].to_vec();
+            let want = vec!["P:ask 150".to_string(), "P:note 31 pipe".into(), "P:note 32 pipe".into(), "P:ask 151".into()];
+            if l != want {
+                bad.push(format!("one sender pipelined request, cast, cast, request on one remote reference (accepted: {ok:?}); the real actor handled {l:?}, expected {want:?}"));
+            }
+            if a1 != Some(1150) || a2 != Some(1151) {
+                bad.push(format!("the pipelined requests were answered {a1:?} and {a2:?}, expected 1150 and 1151"));
             }
         }
         // every remote reference of P answers (both nodes live in this process, each session owns one; pg
